@@ -162,11 +162,12 @@ impl<'a> Parser<'a> {
     }
 
     fn integer(&mut self) -> Option<usize> {
-        let mut cur = 0;
+        let mut cur: usize = 0;
         let mut found = false;
         while let Some(&(_, ch)) = self.it.peek() {
             if let Some(digit) = ch.to_digit(10) {
-                cur = cur * 10 + digit as usize;
+                // absurdly long widths saturate instead of overflowing
+                cur = cur.saturating_mul(10).saturating_add(digit as usize);
                 found = true;
                 self.it.next();
             } else {
